@@ -366,6 +366,19 @@ def gen_sql():
         if need not in froms:
             raise SrcgenError("eligible CTE: expected %r" % need)
 
+    # the aggregates that feed ConfirmationsPolicy::confirmations_until_spendable (modelled as the row
+    # fields r_shin / r_shtrust, whose ground truth the harness reads with a plain SELECT)
+    for qname in ("select_spendable_notes_matching_value", "select_unspent_notes"):
+        qb = norm(fn_body(common, qname, COMMON))
+        for need in ["MAX(tt.mined_height) AS max_shielding_input_height",
+                     "MIN(IFNULL(tt.trust_status, 0)) AS min_shielding_input_trust",
+                     "IFNULL(t.trust_status, 0) AS trust_status",
+                     "LEFT OUTER JOIN transparent_received_output_spends ros ON ros.transaction_id = t.id_tx",
+                     "LEFT OUTER JOIN transparent_received_outputs tro ON tro.id = ros.transparent_received_output_id AND tro.account_id = accounts.id",
+                     "LEFT OUTER JOIN transactions tt ON tt.id_tx = tro.transaction_id"]:
+            if need not in qb:
+                raise SrcgenError("%s: expected %r (shielding-input aggregate / join shape changed)" % (qname, need))
+
     def where_with(lock_sql):
         w = where.replace("({})", "(@SPENT@)").replace("({eligible_condition})", "(" + lock_sql + ")")
         return parse_sql(w, "eligible CTE WHERE")
